@@ -152,11 +152,11 @@ func c09Run(tier string, seed int64, idx int) *core.Result {
 	windowed := c.Timing == "window-unary" || c.Timing == "window-stream"
 	if !windowed {
 		end.FailReadAfter(c.Pos)
-		end.OnRead = func(n int) {
+		end.SetOnRead(func(n int) {
 			if n >= c.Pos {
 				failNow()
 			}
-		}
+		})
 	}
 
 	var runs []*c09CallRun
